@@ -353,6 +353,12 @@ Definition apply_meth (m : meth) (obj : val) (args : list val) : R val :=
       | Some ss => Val (VStr (match ss with [] => [] | h :: t => h ++ List.concat (map (fun x => sep ++ x) t) end))
       | None => Exc TypeError
       end
+  | MJoin, VBytes sep, [v] =>
+      let! items := iter_items v in
+      match fold_right (fun x acc => match x, acc with VBytes z, Some r => Some (z :: r) | _, _ => None end) (Some []) items with
+      | Some ss => Val (VBytes (match ss with [] => [] | h :: t => h ++ List.concat (map (fun x => sep ++ x) t) end))
+      | None => Exc TypeError
+      end
   | MToBytesLittle, VInt n, [VInt len] => let! b := to_bytes_le n len in Val (VBytes b)
   | MToBytesBig, VInt n, [VInt len] => let! b := to_bytes_le n len in Val (VBytes (rev b))
   | (MToBytesLittle | MToBytesBig), VInt _, [_] => Exc TypeError
@@ -452,6 +458,11 @@ Fixpoint eval (en : env) (e : expr) {struct e} : R val :=
   | ECall f args =>
       let! vs := evals en args in
       match fenv f with Some sem => sem vs | None => Exc Unmodelled end
+  | ECallStar f star args =>
+      let! vst := eval en star in
+      let! items := iter_items vst in
+      let! vs := evals en args in
+      match fenv f with Some sem => sem (items ++ vs) | None => Exc Unmodelled end
   | EBuiltin b args => let! vs := evals en args in apply_builtin b vs
   | EMeth m obj args => let! vo := eval en obj in let! vs := evals en args in apply_meth m vo vs
   | EComp body x it cond =>
